@@ -41,7 +41,7 @@ func checkC11(c *vkit.Ctx) {
 	defer os.RemoveAll(foreign[1])
 	absDir := vkit.MkScratch("abs-out")
 	defer os.RemoveAll(absDir)
-	n := c.N(600, 20000)
+	n := c.N(1200, 30000)
 	for i := 0; i < n; i++ {
 		if !c.Mine(i) {
 			continue
@@ -111,7 +111,7 @@ func runC11(c *vkit.Ctx, plain, trim *Program, foreign []string, absDir string, 
 		scn.Nodes[name] = n
 		for k := 0; k < 1+r.IntN(3); k++ {
 			api := []string{"snap", "json", "yaml", "ssnap", "sjson"}[r.IntN(5)]
-			cl := Call{API: api, Dir: dirs[r.IntN(len(dirs))], Via: []string{"", "", "helper", "helper2", "subpkg", "closure", "goroutine"}[r.IntN(7)]}
+			cl := Call{API: api, Dir: dirs[r.IntN(len(dirs))], Via: []string{"", "", "helper", "helper2", "subpkg", "closure", "goroutine", "direct-nontest", "direct-nontest", "direct-nontest-helper"}[r.IntN(10)]}
 			if r.IntN(3) == 0 {
 				cl.File = "named"
 				if cl.Standalone() {
@@ -122,7 +122,7 @@ func runC11(c *vkit.Ctx, plain, trim *Program, foreign []string, absDir string, 
 			if r.IntN(3) == 0 {
 				cl.Ext = ".txt"
 			}
-			if r.IntN(10) == 0 && cl.Dir == "" && cl.File == "" && cl.Ext == "" {
+			if r.IntN(10) == 0 && cl.Dir == "" && cl.File == "" && cl.Ext == "" && !strings.HasPrefix(cl.Via, "direct") {
 				cl.Pkg = true // package-level function
 			}
 			if cl.Via != "" || cl.Dir != "" || cl.File != "" || cl.Ext != "" {
